@@ -13,7 +13,9 @@ CFG = {
              "sizes with the default layer not first in layercontents.plist; half of the trees get a history of 1-30 public-API operations between load and save "
              "(insert_glyph, remove_glyph, rename_glyph, entry().or_insert, exchange / copy of whole glyphs through get_glyph_mut, on existing / early-sorting / previously used names) applied by both builds, the dump "
              "after the history is compared as well; four trees with 33/41/49/70 layers (more than the 32-element small-sort threshold of std) and the default layer "
-             "last / middle / second; four UFO 2 trees with unprefixed kerning groups named like glyphs of ANOTHER font, like dangling component bases and like "
+             "last / middle / second; six trees of 1/2/63/64/65/257 glyphs (around rayon's splitting thresholds) whose 2-3 layers hold the same names under the SAME file names and whose "
+             "contents.plist values carry a directory component (../<other layer>/f, ./f, sub/f) at the first / middle / last position; "
+             "four UFO 2 trees with unprefixed kerning groups named like glyphs of ANOTHER font, like dangling component bases and like "
              "own glyphs, groups and kerning after upconversion are part of the dump; every 4th tree and the UFO 2 trees are loaded after another font "
              "in the SAME process, before every repetition, in both builds) loaded, dumped and saved by the sequential build of the harness and by the rayon build "
              "(second cargo configuration of the same harness, norad/rayon) with RAYON_NUM_THREADS in {1,2,4,16}, each 20x (quick) / 500x (thorough): "
@@ -39,7 +41,7 @@ CFG = {
         "rayon API words); the normalisation is the Lean function ParSource.norm and part of the statement of source_par_bodies_equal_seq; a section whose anchor "
         "is missing uses tools/pinned/ParSites.lean (evidence: extraction: pinned). Trusted in one direction: a wrong extraction can fail a theorem or fall back, "
         "not make a false one check. STRICT for the two iteration sites and the inventory (a rayon-only rewrite of a paired body there fails the tie until the twin is "
-        "edited alike). SOFT for the four representation pairs of names.rs: two forms of `get` are recognised (plain; double-checked = writeStep true of the model); any "
+        "edited alike; details that cannot be resolved are emitted as `unknown` and fail, only a missing function / file / pair falls back). SOFT for the four representation pairs of names.rs: two forms of `get` are recognised (plain; double-checked = writeStep true of the model); any "
         "other shape falls back to the pinned section unless it carries content words (static, OnceLock, HashMap, u64, Hasher ...), so a rayon-only rewrite of `get` into "
         "an unknown shape is then tied by behaviour only",
         "kerning upconversion itself is C15; here groups and kerning are compared between the two builds only (par = seq oracle), not with a model",
